@@ -74,6 +74,11 @@ def check(repo: Repo, R) -> None:
         return None
 
     R.run(c01.check, repo, shared.Retag(R, _sel, "the connection made last is not what the port is built on: a reference group finds no (or another) source, and the port is moved onto a fresh or stale net"))
+    # an instance displaced by another object of its name is no longer the module's: what it was connected to is not
+    # reached through it any more
+    from . import c18 as _c18
+    R.run(_c18.check, repo, shared.Retag(R, lambda r, k: "C04.7-displaced-instance-disowned" if r.startswith("C18.1") and k.startswith("hdl21/module.py") else None,
+                                        "an instance replaced by a new one of the same name stays in the module's books with its old connections: the port references it fed still resolve through it"))
     R.floor("C04.1-conns-backref-pairing", 6)
     R.floor("C04.3-one-ref-per-port", 4)
     R.floor("C04.4-snapshot-iteration", 3)
